@@ -16,9 +16,9 @@ CONSTANTS NAMES,        \* metric names
           PEERS,        \* peer ids
           Thr,          \* metrics.MaxAlertThreshold (code: 1)
           CheckMode,    \* "per_metric": CheckPeers calls alert() once per stored metric (checker.go as found)
-                        \* "once": every (peer, name) is evaluated once per check (after the fix: commit)
+                        \* "once": every (peer, name) is evaluated once per check (as coded after fix 5970698)
           RenewMode     \* "sticky": the alert counter survives a renewal (checker.go as found)
-                        \* "restart": a newer latest metric restarts the alert cycle
+                        \* "restart": a newer latest metric restarts the alert cycle (as coded after fix af6d3bd)
 
 FAR  == 1000000
 NONE == [id |-> 0, valid |-> FALSE, exp |-> -1]
@@ -105,6 +105,13 @@ Check(s, kind, S, acc) ==
                                    ELSE @[p][nm]]]]
     IN [s |-> s2, alerts |-> FoldSet(LAMBDA pr, a : a \o res[pr].out, <<>>, scope)]
 
+\* One iteration of Checker.Watch as started by pubsubmon (peersF = the monitor's peers function):
+\* no peers function -> CheckAll; peers function fails -> skip this tick; else CheckPeers(peers)
+WatchCheck(s, acc) ==
+    CASE s.ps.kind = "nil" -> Check(s, "all", {}, acc)
+      [] s.ps.kind = "err" -> [s |-> s, alerts |-> <<>>]
+      [] OTHER             -> Check(s, "peers", s.ps.set, acc)
+
 \* Store.LatestValid + pubsubmon.LatestMetrics (PeersetFilter)
 LatestValid(s, nm) ==
     {[peer |-> p, mid |-> Last(s.win[nm][p]).id] :
@@ -130,6 +137,7 @@ Apply(s, act, acc) ==
       [] act.a = "tick"       -> [s |-> [s EXCEPT !.now = @ + 1], alerts |-> <<>>]
       [] act.a = "checkpeers" -> Check(s, "peers", act.set, acc)
       [] act.a = "checkall"   -> Check(s, "all", {}, acc)
+      [] act.a = "watch"      -> WatchCheck(s, acc)
 
 -----------------------------------------------------------------------------
 (* Part 2: the property statement, on an observer fed with inputs only.     *)
@@ -168,6 +176,11 @@ ObsStep(o, act, nBefore, alerts) ==
                 [] act.a = "checkpeers" -> [o1 EXCEPT !.scope = act.set \X NAMES]
                 [] act.a = "checkall" ->
                      [o1 EXCEPT !.scope = {pr \in Pairs : o.last[pr[2]][pr[1]] # NONE /\ o.last[pr[2]][pr[1]].valid}]
+                [] act.a = "watch" ->       \* one Watch tick: what it has to cover follows from the peerset
+                     [o1 EXCEPT !.scope =
+                         CASE o.ps.kind = "nil" -> {pr \in Pairs : o.last[pr[2]][pr[1]] # NONE /\ o.last[pr[2]][pr[1]].valid}
+                           [] o.ps.kind = "err" -> {}
+                           [] OTHER             -> o.ps.set \X NAMES]
     IN [o2 EXCEPT !.since = [p \in PEERS |-> [nm \in NAMES |-> @[p][nm] + CountAlerts(alerts, p, nm)]]]
 
 \* o: observer after the step, obs: observation after the step
@@ -181,8 +194,7 @@ ValidUnexpiredMember(o, obs) ==
         e.peer \in PEERS =>
             LET m == o.last[nm][e.peer]
             IN /\ m.valid /\ ~Expired(o.now, m)
-               /\ (o.ps.kind = "set" => e.peer \in o.ps.set)
-               /\ o.ps.kind # "err"
+               /\ (o.ps.kind = "set" => e.peer \in o.ps.set)   \* "when the peerset is known"
 \* a peer whose latest metric is unexpired is never reported as failed
 NoFalseAlarm(o, obs) ==
     \A i \in 1..Len(obs.alerts) :
@@ -210,5 +222,11 @@ PropHolds(k, o, obs) ==
       [] k = 5 -> AlertOnce(o)
       [] k = 6 -> Reported(o)
       [] k = 7 -> Forgotten(o, obs)
+\* the (peer, name) pairs a broken alert-cycle predicate is about (for reporting)
+Offenders(k, o, obs) ==
+    CASE k = 5 -> {pr \in Pairs : o.since[pr[1]][pr[2]] > Thr}
+      [] k = 6 -> {pr \in o.scope : Owed(o, pr) /\ o.since[pr[1]][pr[2]] < 1}
+      [] k = 7 -> {pr \in o.scope : Owed(o, pr) /\ o.pre[pr[1]][pr[2]] >= Thr /\ obs.stored[pr[2]][pr[1]] # 0}
+      [] OTHER -> {}
 BrokenProps(o, obs) == {k \in 1..7 : ~PropHolds(k, o, obs)}
 =============================================================================
